@@ -138,6 +138,19 @@ def run(ctx) -> None:
     ctx.check(osites > 0, RX, "add-watch failures are absorbed inside read_events", "no absorbed add-watch failure found (fault model not exercised)", fi.loc)
     ctx.extra["tabled_hits"] = sorted(set(cfg.tabled_hits))
 
+    # the buffer thread iterates whatever read_events returns: every normal exit must return a list
+    nret = 0
+    for p in paths:
+        if p.outcome[0] == "return" or p.outcome is NORMAL:
+            nret += 1
+            t = p.outcome[1] if p.outcome[0] == "return" else None
+            txt = ast.unparse(t) if t is not None else "None"
+            is_list = isinstance(t, ast.List) or (isinstance(t, ast.Name) and t.id.rstrip("'") == READER_LIST[0]) or txt.startswith("[")
+            if not is_list:
+                ctx.viol(RX, f"Inotify.read_events returns `{txt}`", "read_events can return something that is not a list: InotifyBuffer.run passes it to _group_events, whose loop raises TypeError in the reader thread (it dies with an unhandled error, e.g. at shut-down)", fi.loc)
+    if nret:
+        ctx.ok(RX, f"Inotify.read_events returns a list on each of its {nret} normal exits", fi.loc) if not any((not i.ok) and i.construct.startswith("Inotify.read_events returns") for i in ctx.instances) else None
+
     # ---------------------------------------------------------------- no handler above / thread bodies
     for cls, meth in (("InotifyBuffer", "run"), ("EventEmitter", "run")):
         f = P.find_method(cls, meth)
@@ -365,6 +378,7 @@ VARIANTS = [
     dict(name="B polling keeps running after root loss", expect="fire", rule="C07/root-deletion", edits=[(PO, "                self.queue_event(DirDeletedEvent(self.watch.path))\n                self.stop()\n                return", "                self.queue_event(DirDeletedEvent(self.watch.path))\n                return")]),
     dict(name="B reader ignores root IGNORED", expect="fire", rule="C07/root-deletion", edits=[(IB, "                    if inotify_event.src_path == self._inotify.path:\n                        # Watch was removed explicitly (inotify_rm_watch(2)) or automatically (file\n                        # was deleted, or filesystem was unmounted), stop watching for events\n                        deleted_self = True\n                    continue", "                    continue")]),
     dict(name="B moved_from lookup without membership test", expect="fire", rule="C07/thread-body-exception-flow", edits=[(IC, "        if destination_event.cookie in self._moved_from_events:\n            return self._moved_from_events[destination_event.cookie].src_path\n\n        return None", "        return self._moved_from_events[destination_event.cookie].src_path")]),
+    dict(name="B read_events returns None after close", expect="fire", rule="C07/thread-body-exception-flow", edits=[(IC, "                    if self._closed:\n                        self._close_resources()\n                        return []", "                    if self._closed:\n                        self._close_resources()\n                        return None")]),
     dict(name="B reader normalises its root", expect="fire", rule="C07/root-spelling-preserved", edits=[(IC, "        self._path = path\n", "        self._path = path = os.path.normpath(path)\n")]),
     dict(name="B emitter resolves the root before watching", expect="fire", rule="C07/root-spelling-preserved", edits=[(IN, "        path = os.fsencode(self.watch.path)\n", "        path = os.path.realpath(os.fsencode(self.watch.path))\n")]),
     dict(name="B root test against the absolute path", expect="fire", rule="C07/root-spelling-preserved", edits=[(IN, "elif event.is_delete_self and src_path == self.watch.path:", "elif event.is_delete_self and src_path == os.path.abspath(self.watch.path):")]),
